@@ -225,6 +225,7 @@ pub fn run(rep: &mut Report, thorough: bool) {
                     let (c, p) = &jobs[k];
                     let cfg = c.clone().with_profile(*p);
                     let mut r = Report::new("C01", "x");
+                    r.quiet = true;
                     run_space(&mut r, &cfg, &sp_tl, "lattice-T-L", "", Some(1));
                     sinks.lock().unwrap().push(r.sink);
                 });
@@ -368,6 +369,67 @@ pub fn run(rep: &mut Report, thorough: bool) {
             rep.stage(&stage, "16 signature / header prefixes x all strings of length <= L over 9 symbols x {v4,v6}, UDP", total, t0);
         }
     }
+    // 4b. text fields of every length 1..300 filled with multi-byte / invalid UTF-8 sequences at
+    // every alignment (log lines format these fields)
+    {
+        let fills: Vec<Vec<u8>> = vec![vec![0xc3, 0xa9], vec![0xe2, 0x82, 0xac], vec![0xf0, 0x9f, 0x98, 0x80], vec![0xff], vec![0xc3], vec![b'a']];
+        let nlen: u64 = if thorough { 300 } else { 160 };
+        let dims = [5u64, fills.len() as u64, 4, nlen, 2];
+        let total = engine::product(&dims);
+        let lv = |l: Level| ext[0].clone().with_log(LoggerKind::Logfmt, l);
+        let cfgs: Vec<Cfg> = if thorough {
+            vec![lv(Level::Trace).with_profile(Profile::Dev), lv(Level::Warn).with_profile(Profile::Release), lv(Level::Info).with_profile(Profile::Dev)]
+        } else {
+            vec![lv(Level::Trace).with_profile(Profile::Dev)]
+        };
+        let f4 = flow4(40000, 80);
+        let ck = cookies.get(&key_of(&f4)).copied().unwrap_or(0).wrapping_add(1);
+        for cfg in cfgs {
+            let t0 = std::time::Instant::now();
+            let stage = format!("text-fields-{:?}-{:?}", cfg.level, cfg.profile).to_lowercase();
+            let opts = RunOpts::new(&stage).stateful().chunk(128).no_monitor();
+            let cfgc = cfg.clone();
+            engine::run(
+                &cfg,
+                total,
+                &opts,
+                |i| {
+                    let d = engine::unrank(i, &dims);
+                    let fill = &fills[d[1] as usize];
+                    let n = d[3] as usize + 1;
+                    // field = <align ASCII bytes> + fill repeated, cut to n bytes
+                    let mut field: Vec<u8> = vec![b'a'; d[2] as usize];
+                    while field.len() < n {
+                        field.extend_from_slice(fill);
+                    }
+                    field.truncate(n);
+                    let m: Vec<u8> = match d[0] {
+                        0 => [b"GET /".to_vec(), field, b" HTTP/1.1\r\n\r\n".to_vec()].concat(),
+                        1 => [b"PUT /x HTTP/1.0\nV: ".to_vec(), field, b"\n\n".to_vec()].concat(),
+                        2 => [b"SSH-2.0-".to_vec(), field, b"\r\n".to_vec()].concat(),
+                        3 => [b"SSH-1.99-s ".to_vec(), field, b"\r\n".to_vec()].concat(),
+                        _ => {
+                            let name = String::from_utf8_lossy(&field).to_string();
+                            crate::appsmb::smb1_negotiate(&crate::appsmb::Smb1Hdr::new(0x72), &[name.as_str(), "NT LM 0.12"])
+                        }
+                    };
+                    if d[4] == 0 {
+                        vec![Cmd::Frame(f4.udp(&m))]
+                    } else {
+                        vec![Cmd::Frame(f4.tcp(1000, ck, F_PSH | F_ACK, &m))]
+                    }
+                },
+                |it: &Item, sk: &mut Sink| {
+                    sk.count("frames", 1);
+                    if it.outs[1].panicked {
+                        sk.violation(Violation { prop: "C01".into(), key: format!("panic:{}", engine::panic_site(&it.outs[1].text)), what: format!("reply() panicked: {}", it.outs[1].text), cfg: cfgc.clone(), cmds: it.cmds.to_vec(), idx: it.idx, stage: "text-fields".into() });
+                    }
+                },
+                &mut rep.sink,
+            );
+            rep.stage(&stage, "5 text fields (HTTP target, header value, SSH software, SSH comment, SMB1 dialect) x 6 fill sequences (2/3/4-byte UTF-8, invalid bytes, ASCII) x 4 alignments x every length 1..300 x {UDP, TCP}", total, t0);
+        }
+    }
     // 5. histories: every corpus frame in every reachable parser control state
     histories(rep, &ext[0].clone().with_profile(Profile::Dev), &base, &cookies, thorough);
     rep.states += rep.sink.classes.len() as u64;
@@ -446,9 +508,12 @@ fn histories(rep: &mut Report, cfg: &Cfg, base: &[BaseFrame], cookies: &HashMap<
     let t0 = std::time::Instant::now();
     let mut probes: Vec<Vec<u8>> = Vec::new();
     for b in base {
+        if !thorough && b.name.ends_with("-v6") && !b.name.starts_with("nd-") && !b.name.starts_with("echo") {
+            continue;
+        }
         probes.push(b.frame.clone());
         for k in [0usize, 13, 14, 33, 34, 53, 54, 61, 73] {
-            if k < b.frame.len() && !thorough && !b.name.ends_with("v4") {
+            if !thorough {
                 continue;
             }
             if k < b.frame.len() {
